@@ -196,3 +196,68 @@ def facts(config, repo=None):
     if k not in _facts:
         _facts[k] = Facts(config, repo)
     return _facts[k]
+
+
+def build_harness_facts(name, crates, repo=None, subst=None):
+    """Compiles the harness crate /verif/harness/<name> (templates *.in with @REPO@ substituted) under the
+    driver (RUSTC_WRAPPER, because path dependencies are not workspace members) and returns the fact dir."""
+    repo = repo or REPO
+    key = repo_hash(repo)
+    out = os.path.join(CACHE, key, "harness-" + name)
+    if os.path.isfile(os.path.join(out, "DONE")):
+        return out
+    src = os.path.join(VERIF, "harness", name)
+    work = tempfile.mkdtemp(prefix="pestfacts-harness-")
+    tmp_out = out + ".tmp%d" % os.getpid()
+    shutil.rmtree(tmp_out, ignore_errors=True)
+    os.makedirs(tmp_out)
+    try:
+        for root, ds, fs in os.walk(src):
+            for f in fs:
+                rel = os.path.relpath(os.path.join(root, f), src)
+                dst = os.path.join(work, rel[:-3] if rel.endswith(".in") else rel)
+                os.makedirs(os.path.dirname(dst), exist_ok=True)
+                text = open(os.path.join(root, f)).read()
+                if rel.endswith(".in"):
+                    text = text.replace("@REPO@", repo)
+                    for k, v in (subst or {}).items():
+                        text = text.replace("@%s@" % k, v)
+                open(dst, "w").write(text)
+        lock = os.path.join(repo, "Cargo.lock")
+        if os.path.exists(lock):
+            shutil.copy(lock, os.path.join(work, "Cargo.lock"))
+        env = dict(os.environ)
+        env.update({
+            "LD_LIBRARY_PATH": _sysroot() + "/lib",
+            "RUSTFLAGS": "-Awarnings",
+            "RUSTC_WRAPPER": DRIVER,
+            "PESTFACTS_OUT": tmp_out,
+            "PESTFACTS_CRATES": ",".join(crates),
+            "CARGO_TARGET_DIR": os.path.join(work, "target"),
+            "CARGO_NET_OFFLINE": "true",
+        })
+        env.pop("RUSTC_WORKSPACE_WRAPPER", None)
+        p = subprocess.run(["cargo", "+nightly", "check", "--offline", "-j", "16"], cwd=work, env=env,
+                           stdout=subprocess.PIPE, stderr=subprocess.STDOUT, text=True)
+        if p.returncode != 0:
+            sys.stderr.write(p.stdout[-6000:])
+            raise BuildFailed("harness %s does not compile" % name)
+    finally:
+        shutil.rmtree(work, ignore_errors=True)
+    if not glob.glob(os.path.join(tmp_out, "*.json")):
+        raise BuildFailed("driver produced no facts for harness %s" % name)
+    with open(os.path.join(tmp_out, "DONE"), "w") as fh:
+        fh.write("ok\n")
+    shutil.rmtree(out, ignore_errors=True)
+    os.rename(tmp_out, out)
+    return out
+
+
+def harness_crates(name, crates, repo=None, subst=None):
+    d = build_harness_facts(name, crates, repo, subst)
+    out = {}
+    for f in sorted(glob.glob(os.path.join(d, "*.json"))):
+        with open(f) as fh:
+            doc = json.load(fh)
+        out.setdefault(doc["crate"], []).append(Crate(doc, f))
+    return out
